@@ -275,6 +275,19 @@ class CallMixin:
                 if c is not None:
                     res.extend(self.call_with_contract(c, e, s1, exc, recv, expect))
                     continue
+                decl_ = self.class_decl(recv.s.cls)
+                if decl_ and isinstance(decl_.fields.get(attr), Enum):
+                    # a field holding one of the object's own bound methods (state machines): one case per method it may name
+                    cur = self.read_field(s1, recv, attr)
+                    for name_ in decl_.fields[attr].values:
+                        sv, _ = self.branch(s1.copy(), S.eq(cur, decl_.fields[attr].lit(name_)))
+                        if sv is None:
+                            continue
+                        c2 = self.find_contract_method(recv.s.cls, name_)
+                        if c2 is None:
+                            raise EngineError("state method %s.%s has no contract" % (recv.s.cls, name_))
+                        res.extend(self.call_with_contract(c2, e, sv, exc, recv, expect))
+                    continue
                 fld = self.class_decl(recv.s.cls)
                 res.extend(self.opaque_call(e, s1, exc, expect))
                 continue
